@@ -586,6 +586,7 @@ func main() {
 			}
 		})
 	}
+	scopeReuse(run, xlate.NewMapper())
 	sort.SliceStable(findings, func(i, j int) bool { return findings[i].order < findings[j].order })
 	hist := map[string]int64{}
 	for _, f := range findings {
@@ -602,6 +603,7 @@ func main() {
 	run.Set("base_outcomes", outcomes)
 	run.Set("legal_pool_names", int64(len(legal)))
 	run.Set("finding_histogram", hist)
+	run.Assume("renamings of the main part are injective; legal non-injective spellings (a name re-used after a WITH dropped or replaced it) are enumerated from 6 templates with name slots (scopes.go)")
 	run.Assume("renaming is applied to every *cypher.Variable and *cypher.Parameter node of the parsed model (reflection walk); symbols that are not plain identifiers (`*`, back-ticked names) are left alone")
 	run.Assume("token comparison uses the pglex model of PostgreSQL's lexer; an alias position is an identifier after AS, or a bare name in ORDER BY, at parenthesis depth 0")
 	run.Finish()
